@@ -239,7 +239,7 @@ pub fn float_of(fmt: Fmt, sel: u16, a: u64, b: u64) -> (u64, &'static str) {
             let d = (b % 9) as i64 - 4;
             (base + d).clamp(0, inf as i64 - 1) as u64
         }
-        7 => match a % 10 {
+        7 => match a % 45 {
             0 => 0,
             1 => 1,
             2 => 2,
@@ -249,7 +249,8 @@ pub fn float_of(fmt: Fmt, sel: u16, a: u64, b: u64) -> (u64, &'static str) {
             6 => inf - 1,
             7 => inf - 2,
             8 => inf - 3,
-            _ => 3,
+            9 => 3,
+            k => edge_float(fmt, k - 10),
         },
         _ => {
             // floats nearest to short decimals d.ddd (1..6 digits) * 10^k, |k| small
@@ -264,6 +265,17 @@ pub fn float_of(fmt: Fmt, sel: u16, a: u64, b: u64) -> (u64, &'static str) {
         }
     };
     (bits.min(inf - 1), FLOAT_CLASSES[c])
+}
+
+/// Cross product of edge exponents x edge mantissas (35 patterns): biased exponent in
+/// {0,1,2,3,emax-2,emax-1,emax} x fraction in {0,1,2,all-ones-1,all-ones}.
+pub fn edge_float(fmt: Fmt, k: u64) -> u64 {
+    let mb = fmt.mbits();
+    let mmask = (1u64 << mb) - 1;
+    let emax = (1u64 << fmt.ebits()) - 2;
+    let e = [0, 1, 2, 3, emax - 2, emax - 1, emax][(k % 7) as usize];
+    let m = [0, 1, 2, mmask - 1, mmask][((k / 7) % 5) as usize];
+    ((e << mb) | m).min(fmt.inf_bits() - 1)
 }
 
 // ---------------------------------------------------------------------------
@@ -809,6 +821,9 @@ pub fn g_e(fmt: Fmt, r: &Recipe) -> Case {
 pub fn extreme_float(fmt: Fmt, sel: u16, a: u64) -> u64 {
     let inf = fmt.inf_bits();
     let mmask = (1u64 << fmt.mbits()) - 1;
+    if sel >= 0xC000 {
+        return edge_float(fmt, a % 35);
+    }
     match pick(sel, 14) {
         0 => 0,
         1 => 1,
@@ -1227,31 +1242,247 @@ pub fn g_c_edge(fmt: Fmt, r: &Recipe, lim: Limits) -> Case {
 }
 
 // ---------------------------------------------------------------------------
+// G-M: inputs that make the low word of Eisel-Lemire's first 64x64 product exactly u64::MAX
+// (the `lo == 0xFFFF_FFFF_FFFF_FFFF` fallback), constructed by modular inversion of the
+// 128-bit table's high word: w = -(T_hi)^-1 mod 2^64.
+
+fn inv_mod_2_64(a: u64) -> u64 {
+    debug_assert!(a & 1 == 1);
+    let mut x = a; // correct to 3 bits
+    for _ in 0..6 {
+        x = x.wrapping_mul(2u64.wrapping_sub(a.wrapping_mul(x)));
+    }
+    x
+}
+
+/// (w, q) with w in [2^63, 2^64) and low64(w * T_hi(q)) == u64::MAX, for every q whose
+/// table high word is odd.  `T_hi` is recomputed from its definition (not read from the crate).
+pub fn lemire_lo_max_pairs() -> &'static Vec<(u64, i32)> {
+    use std::sync::OnceLock;
+    static T: OnceLock<Vec<(u64, i32)>> = OnceLock::new();
+    T.get_or_init(|| {
+        let mut out = Vec::new();
+        for q in -342..=308i32 {
+            let (hi, _lo) = crate::props::c14::lemire_entry(q);
+            if hi & 1 == 0 {
+                continue;
+            }
+            let w = inv_mod_2_64(hi).wrapping_neg();
+            debug_assert!(w.wrapping_mul(hi) == u64::MAX);
+            if w >> 63 == 1 {
+                out.push((w, q));
+            }
+        }
+        out
+    })
+}
+
+pub fn g_m(fmt: Fmt, r: &Recipe) -> Case {
+    let _ = fmt;
+    let t = lemire_lo_max_pairs();
+    let (w, q) = t[((r.a as u128 * t.len() as u128) >> 64) as usize];
+    // the 19-digit decimal significands among them first (reachable through parse_number without truncation)
+    let small: Vec<&(u64, i32)> = t.iter().filter(|(w, _)| *w < 10_000_000_000_000_000_000).collect();
+    let (w, q) = if r.sel[2] < 0xA000 && !small.is_empty() { *small[(r.b % small.len() as u64) as usize] } else { (w, q) };
+    let mut digits: Vec<u8> = w.to_string().into_bytes();
+    let mut q = q as i64;
+    let variant = match r.k[0] % 4 {
+        0 | 1 => "w*10^q",
+        2 => {
+            // 20-digit truncation variant: w followed by extra digits
+            let n = 1 + (r.k[1] % 30) as usize;
+            let extra = stretch_digits(r, n, 0x6d);
+            digits.extend(extra.iter().map(|d| d + b'0'));
+            q -= n as i64;
+            "w then digits"
+        }
+        _ => "w split",
+    };
+    if variant == "w split" && digits.len() > 1 && *digits.last().unwrap() != b'0' {
+        let k = 1 + (r.k[1] as usize) % (digits.len() - 1);
+        let frac = digits.split_off(k);
+        let e = q + frac.len() as i64;
+        return Case { int: digits, frac, exp: e as i32, family: "G-M lemire lo==MAX", variant, layout: "split", expect: None };
+    }
+    if *digits.last().unwrap() == b'0' && variant != "w*10^q" {
+        *digits.last_mut().unwrap() = b'7';
+    }
+    Case { int: digits, frac: vec![], exp: q as i32, family: "G-M lemire lo==MAX", variant, layout: "integer-only", expect: None }
+}
+
+// ---------------------------------------------------------------------------
+// G-N: big integers whose binary form has a run of zero limbs (so that the long multiplication by
+// the large power of five skips rows), placed within 2^-100 of a rounding boundary and scaled by
+// 10^e with e >= 135.  f64 only (the value must exceed 10^289).
+
+pub fn g_n(r: &Recipe) -> Case {
+    let fmt = Fmt::F64;
+    // a float in the top ~60 binades
+    let emax = (1u64 << fmt.ebits()) - 2;
+    let be = emax - (r.a % 58);
+    let x = (be << fmt.mbits()) | (r.b & ((1u64 << fmt.mbits()) - 1));
+    let h = oracle::hi(fmt, x.min(fmt.inf_bits() - 1));
+    // H is an integer here; N0 = H / 10^e
+    let mut hd = h.digits.clone();
+    while (hd.len() as i64) < h.point {
+        hd.push(0);
+    }
+    let hn = Nat::from_digits(&hd);
+    let e = 135 + (r.k[0] % 12);
+    let (n0, _) = hn.divrem(&Nat::pow_small(10, e));
+    // keep the top limbs, zero `k` limbs below them, put a small non-zero limb at the bottom
+    let limbs = n0.limbs();
+    let k = 1 + (r.k[1] as usize % 8);
+    let keep_from = (k + 1).min(limbs.saturating_sub(1));
+    let mut l = vec![0u64; limbs];
+    for i in keep_from..limbs {
+        l[i] = n0.l[i];
+    }
+    l[0] = 1 + (r.k[2] as u64 % 1000);
+    if r.k[3] % 3 == 0 && keep_from > 2 {
+        l[keep_from / 2] = 1 + (r.k[3] as u64 >> 2); // one isolated limb inside the run
+    }
+    let n = Nat::from_limbs(&l);
+    let digits: Vec<u8> = n.to_digits().iter().map(|d| d + b'0').collect();
+    if digits.is_empty() {
+        return g_b(fmt, r, QUICK);
+    }
+    Case { int: digits, frac: vec![], exp: e as i32, family: "G-N sparse-limb integer", variant: "N*10^e, e>=135", layout: "integer-only", expect: None }
+}
+
+// ---------------------------------------------------------------------------
+// G-P: decimal expansions of powers of two (and 2^K +- 1) scaled by 10^-n that come closest to a
+// rounding boundary o * 2^(e-1): there the two big integers compared by the slow path straddle a
+// power of two (same limb count, different bit length).  Table: for each n the odd o nearest to
+// 2^K0 / 5^n, ranked by |o * 5^n - 2^K0| / 2^K0.
+
+#[derive(Clone, Copy, Debug)]
+pub struct PowHard {
+    pub n: u32,
+    pub k0: u32,
+    pub o: u64,
+    /// -log2 of the relative distance
+    pub closeness: u32,
+    /// o * 5^n < 2^K0
+    pub below: bool,
+}
+
+pub fn pow2_table(fmt: Fmt) -> &'static Vec<PowHard> {
+    use std::sync::OnceLock;
+    static T64: OnceLock<Vec<PowHard>> = OnceLock::new();
+    static T32: OnceLock<Vec<PowHard>> = OnceLock::new();
+    let build = |fmt: Fmt| -> Vec<PowHard> {
+        let p = fmt.mbits() as u64 + 1; // o = 2m+1 has p+1 bits for normal m
+        let nmax = match fmt {
+            Fmt::F32 => 160usize,
+            Fmt::F64 => 1100usize,
+        };
+        let mut all = Vec::new();
+        for n in 1..=nmax {
+            let f = pow5().get(n);
+            // K0 with 2^K0 / 5^n in [2^p, 2^(p+1))
+            let k0 = f.bits() + p; // 2^(bits+p) / 5^n in (2^p, 2^(p+1)]
+            let (q, rem) = Nat::pow2(k0).divrem(f);
+            let mut o = match q.to_u64() {
+                Some(v) => v,
+                None => continue,
+            };
+            // nearest odd integer to the real quotient
+            let twice = rem.shl(1);
+            let round_up = twice.cmp(f) != std::cmp::Ordering::Less;
+            if o & 1 == 0 {
+                // neighbours o-1 and o+1: real quotient in [o, o+1) -> o+1 is nearer iff fractional part... both at distance <= 1
+                o = if round_up || true { o + 1 } else { o - 1 };
+            }
+            if o >> p != 1 {
+                continue;
+            }
+            let prod = f.mul_small(o);
+            let target = Nat::pow2(k0);
+            let (below, dist) = if prod.cmp(&target) == std::cmp::Ordering::Less { (true, target.sub(&prod)) } else { (false, prod.sub(&target)) };
+            let closeness = if dist.is_zero() { 200 } else { (k0 + 1).saturating_sub(dist.bits()) as u32 };
+            all.push(PowHard { n: n as u32, k0: k0 as u32, o, closeness, below });
+        }
+        all.sort_by(|a, b| b.closeness.cmp(&a.closeness));
+        all.truncate(64);
+        all
+    };
+    match fmt {
+        Fmt::F64 => T64.get_or_init(|| build(Fmt::F64)),
+        Fmt::F32 => T32.get_or_init(|| build(Fmt::F32)),
+    }
+}
+
+pub fn g_p(fmt: Fmt, r: &Recipe) -> Case {
+    let t = pow2_table(fmt);
+    let h = t[pick(r.sel[2], t.len())];
+    // boundary o * 2^(e-1) ~ 2^K / 10^n  with K = K0 + n + e - 1; pick the float exponent e
+    let emin_sub = 1 - fmt.bias() - fmt.mbits() as i64;
+    let emax = fmt.bias() - fmt.mbits() as i64; // exponent of the top binade's ulp
+    let lo_e = (emin_sub + 1).max(1 - h.k0 as i64 - h.n as i64 + 1);
+    let e = lo_e + (r.a % ((emax - lo_e + 1).max(1)) as u64) as i64;
+    let k = h.k0 as i64 + h.n as i64 + e - 1;
+    if k < 0 || k > 4000 {
+        return g_b(fmt, r, QUICK);
+    }
+    let p2 = Nat::pow2(k as u64);
+    let (num, variant) = match r.k[0] % 4 {
+        0 => (p2, "2^K / 10^n"),
+        1 => (p2.sub(&Nat::one()), "(2^K - 1) / 10^n"),
+        2 => (p2.add_small(1), "(2^K + 1) / 10^n"),
+        _ => {
+            // a few more digits: 2^K followed by a digit, one more power of ten in the divisor
+            (p2.mul_small(10).add_small(1 + (r.k[1] % 9) as u64), "(10 * 2^K + d) / 10^(n+1)")
+        }
+    };
+    let extra = if variant.starts_with("(10") { 1 } else { 0 };
+    let d = Dec::from_nat(&num, -(h.n as i64) - extra);
+    let (int, frac, exp, lay) = layout(&d.digits, d.point, r.sel[4], r.k[3], false);
+    Case { int, frac, exp, family: "G-P power-of-two near boundary", variant, layout: lay, expect: None }
+}
+
+// ---------------------------------------------------------------------------
 // mixtures
 
 /// The C01/C02 mixture: G-B 35, G-C 20, G-A 15, G-D 7, G-E 10, G-F 6, G-G 7.
 pub fn mixed(fmt: Fmt, r: &Recipe, lim: Limits) -> Case {
-    match pick_w(r.sel[0], &[35, 20, 15, 7, 10, 6, 7]) {
+    match pick_w(r.sel[0], &[33, 20, 14, 7, 10, 6, 7, 1, 1, 1]) {
         0 => g_b(fmt, r, lim),
         1 => g_c(fmt, r, lim),
         2 => g_a(fmt, r, lim),
         3 => g_d(fmt, r),
         4 => g_e(fmt, r),
         5 => g_f(fmt, r, lim),
-        _ => g_g(fmt, r, lim),
+        6 => g_g(fmt, r, lim),
+        7 => g_m(fmt, r),
+        8 => g_p(fmt, r),
+        _ => {
+            if fmt == Fmt::F64 {
+                g_n(r)
+            } else {
+                g_m(fmt, r)
+            }
+        }
     }
 }
 
 /// The same mixture without the closest-approach table (used by the fuzz
 /// targets, where coverage feedback plays the role of that table).
 pub fn mixed_no_table(fmt: Fmt, r: &Recipe, lim: Limits) -> Case {
-    match pick_w(r.sel[0], &[45, 20, 9, 12, 6, 8]) {
+    match pick_w(r.sel[0], &[44, 20, 9, 12, 6, 8, 1]) {
         0 => g_b(fmt, r, lim),
         1 => g_a(fmt, r, lim),
         2 => g_d(fmt, r),
         3 => g_e(fmt, r),
         4 => g_f(fmt, r, lim),
-        _ => g_g(fmt, r, lim),
+        5 => g_g(fmt, r, lim),
+        _ => {
+            if fmt == Fmt::F64 {
+                g_n(r)
+            } else {
+                g_b(fmt, r, lim)
+            }
+        }
     }
 }
 
